@@ -454,6 +454,12 @@ pub fn process<I: BufRead, O: Write>(
                             Some(string) => {
                                 in_multiline_comments = true;
                                 remaining = string;
+                                // A comment separates the tokens around it
+                                if !uncommented_buf.is_empty()
+                                    && !uncommented_buf.ends_with(char::is_whitespace)
+                                {
+                                    uncommented_buf.push(' ');
+                                }
                             }
                             _ => break,
                         }
@@ -467,6 +473,11 @@ pub fn process<I: BufRead, O: Write>(
                         Some(string) => {
                             in_multiline_comments = true;
                             remaining = string;
+                            if !uncommented_buf.is_empty()
+                                && !uncommented_buf.ends_with(char::is_whitespace)
+                            {
+                                uncommented_buf.push(' ');
+                            }
                         }
                         _ => break,
                     }
